@@ -33,6 +33,9 @@ func (p *Prog) BuildQuery(o *Obligation, getModel []string) string {
 	asserts := append([]*Term{}, o.Facts[:o.NFacts]...)
 	asserts = append(asserts, Not(o.Goal))
 	asserts = append(asserts, p.unfoldInstances(asserts, 3, 400)...)
+	if !o.noLemmas {
+		asserts = append(asserts, p.lemmaAxioms()...)
+	}
 	return p.buildScript(asserts, getModel)
 }
 
